@@ -120,26 +120,37 @@ impl<T> AtomicWeak<T> {
         failure: Ordering,
         guard: &'g Guard,
     ) -> Result<Weak<T>, CompareExchangeError<Weak<T>, WeakSnapshot<'g, T>>> {
-        vpoint!(Link, &self.link as *const _);
-        match self
-            .link
-            .compare_exchange(expected.ptr, desired.ptr, success, failure)
-        {
-            Ok(_) => {
-                vevent!(LinkWrite {
-                    cell: &self.link as *const _ as usize,
-                    old: expected.ptr.verif_word(),
-                    new: desired.verif_word(),
-                    weak: true
-                });
-                // Skip decrementing a weak count of the inserted pointer.
-                forget(desired);
-                let weak = Weak::from_raw(expected.ptr);
-                Ok(weak)
-            }
-            Err(current) => {
-                let current = WeakSnapshot::from_raw(current, guard);
-                Err(CompareExchangeError { desired, current })
+        // The epoch tag in the high bits is invisible to clients: a stored pointer that only
+        // differs from `expected` there is the expected one (cf. `AtomicRc::compare_exchange`).
+        let mut expected_raw = expected.ptr;
+        loop {
+            vpoint!(Link, &self.link as *const _);
+            match self
+                .link
+                .compare_exchange(expected_raw, desired.ptr, success, failure)
+            {
+                Ok(_) => {
+                    vevent!(LinkWrite {
+                        cell: &self.link as *const _ as usize,
+                        old: expected_raw.verif_word(),
+                        new: desired.verif_word(),
+                        weak: true
+                    });
+                    // Skip decrementing a weak count of the inserted pointer.
+                    forget(desired);
+                    let weak = Weak::from_raw(expected_raw);
+                    return Ok(weak);
+                }
+                Err(current_raw) => {
+                    if current_raw.ptr_eq(expected_raw)
+                        && current_raw.high_tag() != expected_raw.high_tag()
+                    {
+                        expected_raw = current_raw;
+                    } else {
+                        let current = WeakSnapshot::from_raw(current_raw, guard);
+                        return Err(CompareExchangeError { desired, current });
+                    }
+                }
             }
         }
     }
@@ -172,26 +183,37 @@ impl<T> AtomicWeak<T> {
         failure: Ordering,
         guard: &'g Guard,
     ) -> Result<Weak<T>, CompareExchangeError<Weak<T>, WeakSnapshot<'g, T>>> {
-        vpoint!(Link, &self.link as *const _);
-        match self
-            .link
-            .compare_exchange_weak(expected.ptr, desired.ptr, success, failure)
-        {
-            Ok(_) => {
-                vevent!(LinkWrite {
-                    cell: &self.link as *const _ as usize,
-                    old: expected.ptr.verif_word(),
-                    new: desired.verif_word(),
-                    weak: true
-                });
-                // Skip decrementing a weak count of the inserted pointer.
-                forget(desired);
-                let weak = Weak::from_raw(expected.ptr);
-                Ok(weak)
-            }
-            Err(current) => {
-                let current = WeakSnapshot::from_raw(current, guard);
-                Err(CompareExchangeError { desired, current })
+        // The epoch tag in the high bits is invisible to clients: a stored pointer that only
+        // differs from `expected` there is the expected one (cf. `AtomicRc::compare_exchange`).
+        let mut expected_raw = expected.ptr;
+        loop {
+            vpoint!(Link, &self.link as *const _);
+            match self
+                .link
+                .compare_exchange_weak(expected_raw, desired.ptr, success, failure)
+            {
+                Ok(_) => {
+                    vevent!(LinkWrite {
+                        cell: &self.link as *const _ as usize,
+                        old: expected_raw.verif_word(),
+                        new: desired.verif_word(),
+                        weak: true
+                    });
+                    // Skip decrementing a weak count of the inserted pointer.
+                    forget(desired);
+                    let weak = Weak::from_raw(expected_raw);
+                    return Ok(weak);
+                }
+                Err(current_raw) => {
+                    if current_raw.ptr_eq(expected_raw)
+                        && current_raw.high_tag() != expected_raw.high_tag()
+                    {
+                        expected_raw = current_raw;
+                    } else {
+                        let current = WeakSnapshot::from_raw(current_raw, guard);
+                        return Err(CompareExchangeError { desired, current });
+                    }
+                }
             }
         }
     }
@@ -231,27 +253,38 @@ impl<T> AtomicWeak<T> {
     ) -> Result<WeakSnapshot<'g, T>, CompareExchangeError<WeakSnapshot<'g, T>, WeakSnapshot<'g, T>>>
     {
         let desired_raw = expected.ptr.with_tag(desired_tag);
-        vpoint!(Link, &self.link as *const _);
-        match self
-            .link
-            .compare_exchange(expected.ptr, desired_raw, success, failure)
-        {
-            #[cfg(feature = "circ_verif")]
-            Ok(current) => {
-                vevent!(LinkWrite {
-                    cell: &self.link as *const _ as usize,
-                    old: current.verif_word(),
-                    new: desired_raw.verif_word(),
-                    weak: true
-                });
-                Ok(WeakSnapshot::from_raw(current, guard))
+        let mut expected_raw = expected.ptr;
+        loop {
+            vpoint!(Link, &self.link as *const _);
+            match self
+                .link
+                .compare_exchange(expected_raw, desired_raw, success, failure)
+            {
+                #[cfg(feature = "circ_verif")]
+                Ok(current) => {
+                    vevent!(LinkWrite {
+                        cell: &self.link as *const _ as usize,
+                        old: current.verif_word(),
+                        new: desired_raw.verif_word(),
+                        weak: true
+                    });
+                    return Ok(WeakSnapshot::from_raw(current, guard));
+                }
+                #[cfg(not(feature = "circ_verif"))]
+                Ok(current) => return Ok(WeakSnapshot::from_raw(current, guard)),
+                Err(current_raw) => {
+                    if current_raw.ptr_eq(expected_raw)
+                        && current_raw.high_tag() != expected_raw.high_tag()
+                    {
+                        expected_raw = current_raw;
+                    } else {
+                        return Err(CompareExchangeError {
+                            desired: WeakSnapshot::from_raw(desired_raw, guard),
+                            current: WeakSnapshot::from_raw(current_raw, guard),
+                        });
+                    }
+                }
             }
-            #[cfg(not(feature = "circ_verif"))]
-            Ok(current) => Ok(WeakSnapshot::from_raw(current, guard)),
-            Err(current) => Err(CompareExchangeError {
-                desired: WeakSnapshot::from_raw(desired_raw, guard),
-                current: WeakSnapshot::from_raw(current, guard),
-            }),
         }
     }
 
